@@ -8,6 +8,19 @@ use crate::mpc::garble::{self, GarblingKey};
 use std::collections::BTreeSet;
 
 include!("/verif/harness/common.rs");
+/// Property-scoped assertion: a harness body shared by several properties is instantiated once
+/// per owning property; only the assertions of that property are active in an instance (Kani
+/// stops a path at the first failed assertion, so assertions of another property placed
+/// earlier would otherwise shadow the later ones).
+#[allow(unused_macros)]
+macro_rules! pa {
+    ($own:expr, $p:expr, $cond:expr, $msg:expr) => {
+        if $own == $p {
+            assert!($cond, $msg);
+        }
+    };
+}
+
 
 /// A channel that is never used by the synchronous functions under check.
 pub(crate) struct NoChan;
@@ -342,7 +355,7 @@ fn out_circuit(o0: u32, o1: u32) -> Circuit {
 /// output-wire shares, Ok(bits) implies that for every output register the peer's share was
 /// present, its MAC verified under the own key and global key, and the returned bit is
 /// evaluator value ^ own share ^ peer share.
-fn output_tail_n2(o0: u32, o1: u32) {
+fn output_tail_n2(o0: u32, o1: u32, prop_own: u8) {
     let circ = out_circuit(o0, o1);
     let delta = Delta(kani::any());
     let own = [any_share2(), any_share2()];
@@ -366,37 +379,72 @@ fn output_tail_n2(o0: u32, o1: u32) {
     kani::cover!(ok, "output_ok_reachable");
     kani::cover!(!ok, "output_err_reachable");
     if let Ok(bits) = &r {
-        assert!(bits.len() == 3, "C02:output:one-bit-per-output-position(duplicates-preserved)");
+        pa!(prop_own, 2, bits.len() == 3, "C02:output:one-bit-per-output-position(duplicates-preserved)");
         let regs = [o0 as usize, o1 as usize, o0 as usize];
         let mut idx = 0;
         while idx < 3 {
             let w = regs[idx];
-            assert!(ev[w].is_some(), "C02:output:evaluator-value-present");
-            assert!(peer[w].is_some(), "C02:output:omitted-peer-share-not-accepted");
+            pa!(prop_own, 2, ev[w].is_some(), "C02:output:evaluator-value-present");
+            pa!(prop_own, 2, peer[w].is_some(), "C02:output:omitted-peer-share-not-accepted");
             if let (Some(v), Some((rb, mac))) = (ev[w], peer[w]) {
-                assert!(mac.0 == own_keys[w] ^ (if rb { delta.0 } else { 0 }), "C03:output:peer-share-MAC-verified");
-                assert!(bits.len() == 3 && bits[idx] == (v ^ own_bits[w] ^ rb), "C02:output:bit==value^own-share^peer-share");
+                pa!(prop_own, 3, mac.0 == own_keys[w] ^ (if rb { delta.0 } else { 0 }), "C03:output:peer-share-MAC-verified");
+                pa!(prop_own, 2, bits.len() == 3 && bits[idx] == (v ^ own_bits[w] ^ rb), "C02:output:bit==value^own-share^peer-share");
             }
             idx += 1;
         }
     }
+    // C01 direction (honest opening): valid, present peer shares and evaluator values are
+    // accepted and give value ^ own share ^ peer share at every output position
+    let mut honest = true;
+    let mut w = 0;
+    while w < 2 {
+        let used = w == o0 as usize || w == o1 as usize;
+        if used {
+            honest &= ev[w].is_some();
+            honest &= match peer[w] {
+                Some((rb, mac)) => mac.0 == own_keys[w] ^ (if rb { delta.0 } else { 0 }),
+                None => false,
+            };
+        }
+        w += 1;
+    }
+    if honest {
+        pa!(prop_own, 1, ok, "C01:output:honest-opening-accepted");
+        if let Ok(bits) = &r {
+            let regs = [o0 as usize, o1 as usize, o0 as usize];
+            let mut good = bits.len() == 3;
+            let mut idx = 0;
+            while idx < 3 {
+                if let (Some(v), Some((rb, _))) = (ev[regs[idx]], peer[regs[idx]]) {
+                    good &= bits.len() == 3 && bits[idx] == (v ^ own_bits[regs[idx]] ^ rb);
+                }
+                idx += 1;
+            }
+            pa!(prop_own, 1, good, "C01:output:honest-opening-bits==value^own-share^peer-share(duplicates-preserved)");
+        }
+    }
+    kani::cover!(honest, "honest_opening_reachable");
     std::mem::forget(r);
     std::mem::forget(circ);
 }
 
 macro_rules! output_tail_variant {
-    ($name:ident, $o0:expr, $o1:expr) => {
+    ($name:ident, $o0:expr, $o1:expr, $own:expr) => {
         #[kani::proof]
         #[kani::unwind(6)]
         #[kani::stub(std::fmt::format, no_format)]
         fn $name() {
-            output_tail_n2($o0, $o1);
+            output_tail_n2($o0, $o1, $own);
         }
     };
 }
-output_tail_variant!(c02_output_tail_n2_regs01, 0, 1);
-output_tail_variant!(c02_output_tail_n2_regs10, 1, 0);
-output_tail_variant!(c02_output_tail_n2_regs11, 1, 1);
+output_tail_variant!(c02_output_tail_n2_regs01, 0, 1, 2);
+output_tail_variant!(c02_output_tail_n2_regs10, 1, 0, 2);
+output_tail_variant!(c02_output_tail_n2_regs11, 1, 1, 2);
+output_tail_variant!(c02_output_tail_n2_regs01__c03, 0, 1, 3);
+output_tail_variant!(c02_output_tail_n2_regs11__c03, 1, 1, 3);
+output_tail_variant!(c02_output_tail_n2_regs01__c01, 0, 1, 1);
+output_tail_variant!(c02_output_tail_n2_regs11__c01, 1, 1, 1);
 
 /// C05 (result side): a party outside the output set returns an empty vector from the opening.
 #[kani::proof]
@@ -424,7 +472,7 @@ fn c05_output_tail_non_output_party_gets_nothing() {
 
 /// C03 - evaluator's revealed (value, label) pairs are checked against the own zero-label and
 /// global key: Ok implies every output register carries Some((b, label0 ^ b*delta)).
-fn output_label_check_n2(o0: u32, o1: u32) {
+fn output_label_check_n2(o0: u32, o1: u32, prop_own: u8) {
     let circ = out_circuit(o0, o1);
     let delta = Delta(kani::any());
     let l: [u128; 2] = kani::any();
@@ -441,11 +489,11 @@ fn output_label_check_n2(o0: u32, o1: u32) {
         let mut idx = 0;
         while idx < 2 {
             let w = ws[idx];
-            assert!(wl[w].is_some(), "C03:output-label:missing-value-not-accepted");
+            pa!(prop_own, 3, wl[w].is_some(), "C03:output-label:missing-value-not-accepted");
             if let Some((b, lab)) = wl[w] {
-                assert!(lab.0 == l[w] ^ (if b { delta.0 } else { 0 }), "C03:output-label:label==label0^b*delta");
-                assert!(regs[w] == Some(b), "C03:output-label:accepted-value-is-the-revealed-one");
-                assert!(regs[w] == Some(b) && lab.0 == l[w] ^ (if b { delta.0 } else { 0 }), "C02:output:evaluator-value-accepted-only-together-with-its-own-label");
+                pa!(prop_own, 3, lab.0 == l[w] ^ (if b { delta.0 } else { 0 }), "C03:output-label:label==label0^b*delta");
+                pa!(prop_own, 3, regs[w] == Some(b), "C03:output-label:accepted-value-is-the-revealed-one");
+                pa!(prop_own, 2, regs[w] == Some(b) && lab.0 == l[w] ^ (if b { delta.0 } else { 0 }), "C02:output:evaluator-value-accepted-only-together-with-its-own-label");
             }
             idx += 1;
         }
@@ -455,17 +503,19 @@ fn output_label_check_n2(o0: u32, o1: u32) {
 }
 
 macro_rules! output_label_variant {
-    ($name:ident, $o0:expr, $o1:expr) => {
+    ($name:ident, $o0:expr, $o1:expr, $own:expr) => {
         #[kani::proof]
         #[kani::unwind(6)]
         #[kani::stub(std::fmt::format, no_format)]
         fn $name() {
-            output_label_check_n2($o0, $o1);
+            output_label_check_n2($o0, $o1, $own);
         }
     };
 }
-output_label_variant!(c03_output_label_check_n2_regs01, 0, 1);
-output_label_variant!(c03_output_label_check_n2_regs11, 1, 1);
+output_label_variant!(c03_output_label_check_n2_regs01, 0, 1, 3);
+output_label_variant!(c03_output_label_check_n2_regs11, 1, 1, 3);
+output_label_variant!(c03_output_label_check_n2_regs01__c02, 0, 1, 2);
+output_label_variant!(c03_output_label_check_n2_regs11__c02, 1, 1, 2);
 
 fn ip_circuit(party0: u32, party1: u32, in0: u32, in1: u32) -> Circuit {
     Circuit {
@@ -643,7 +693,7 @@ fn any_macs_le2() -> Vec<Mac> {
 /// implies that the garbler's share carried a MAC that verifies under the evaluator's key
 /// for the selected row; the masked output is own row bit ^ garbler bit and the garbler label
 /// is label_share ^ own MAC.
-fn evaluate_and_arm_n2(i: usize) {
+fn evaluate_and_arm_n2(i: usize, prop_own: u8) {
     let delta = Delta(kani::any());
     let rows = [any_share2(), any_share2(), any_share2(), any_share2()];
     let own_bit = [rows[0].0, rows[1].0, rows[2].0, rows[3].0];
@@ -667,30 +717,32 @@ fn evaluate_and_arm_n2(i: usize) {
     kani::cover!(ok, "and_arm_ok_reachable");
     kani::cover!(!ok, "and_arm_err_reachable");
     if let Ok((s, label)) = &res {
-        assert!(dec_ok, "C03:evaluate:undecryptable-row-not-accepted");
-        assert!(mlen >= 1, "C03:evaluate:row-share-without-MAC-not-accepted");
-        assert!(m0 == key1[i] ^ (if r { delta.0 } else { 0 }), "C03:evaluate:row-share-MAC-verified-under-evaluator-key");
-        assert!(*s == (own_bit[i] ^ r), "C01:evaluate:masked-output==own-row-bit^garbler-row-bit");
-        assert!(label.len() == 2 && label[1].0 == ls ^ own_mac1[i], "C01:evaluate:garbler-label==label_share^own-MAC");
+        pa!(prop_own, 3, dec_ok, "C03:evaluate:undecryptable-row-not-accepted");
+        pa!(prop_own, 3, mlen >= 1, "C03:evaluate:row-share-without-MAC-not-accepted");
+        pa!(prop_own, 3, m0 == key1[i] ^ (if r { delta.0 } else { 0 }), "C03:evaluate:row-share-MAC-verified-under-evaluator-key");
+        pa!(prop_own, 1, *s == (own_bit[i] ^ r), "C01:evaluate:masked-output==own-row-bit^garbler-row-bit");
+        pa!(prop_own, 1, label.len() == 2 && label[1].0 == ls ^ own_mac1[i], "C01:evaluate:garbler-label==label_share^own-MAC");
     }
     std::mem::forget(res);
     std::mem::forget((lx, ly, gg));
 }
 
 macro_rules! evaluate_and_arm_variant {
-    ($name:ident, $i:expr) => {
+    ($name:ident, $i:expr, $own:expr) => {
         #[kani::proof]
         #[kani::unwind(6)]
         #[kani::stub(std::fmt::format, no_format)]
         fn $name() {
-            evaluate_and_arm_n2($i);
+            evaluate_and_arm_n2($i, $own);
         }
     };
 }
-evaluate_and_arm_variant!(c03_evaluate_and_arm_n2_row0, 0);
-evaluate_and_arm_variant!(c03_evaluate_and_arm_n2_row1, 1);
-evaluate_and_arm_variant!(c03_evaluate_and_arm_n2_row2, 2);
-evaluate_and_arm_variant!(c03_evaluate_and_arm_n2_row3, 3);
+evaluate_and_arm_variant!(c03_evaluate_and_arm_n2_row0, 0, 3);
+evaluate_and_arm_variant!(c03_evaluate_and_arm_n2_row1, 1, 3);
+evaluate_and_arm_variant!(c03_evaluate_and_arm_n2_row2, 2, 3);
+evaluate_and_arm_variant!(c03_evaluate_and_arm_n2_row3, 3, 3);
+evaluate_and_arm_variant!(c03_evaluate_and_arm_n2_row0__c01, 0, 1);
+evaluate_and_arm_variant!(c03_evaluate_and_arm_n2_row3__c01, 3, 1);
 
 fn auth2(m: u128, k: u128, me: usize) -> Auth {
     // slot `me` is the own slot (zero), the other slot carries (mac, key) towards the peer
@@ -710,10 +762,7 @@ fn auth2(m: u128, k: u128, me: usize) -> Auth {
 ///    (including the xor_key(p_eval, delta) correction of row 3),
 ///  * if the evaluator decrypts the garbler's row i it accepts, obtains exactly that masked
 ///    output value and the garbler's label for it: label_gamma_0 ^ value * delta_garbler.
-#[kani::proof]
-#[kani::unwind(6)]
-#[kani::stub(std::fmt::format, no_format)]
-fn c01_and_gate_table_n2() {
+fn and_gate_table_n2(prop_own: u8) {
     let d_e: u128 = kani::any(); // evaluator's global key
     let d_g: u128 = kani::any(); // garbler's global key
     // components c: 0 = x, 1 = y, 2 = gamma, 3 = sigma
@@ -752,12 +801,26 @@ fn c01_and_gate_table_n2() {
         }
         idx += 1;
     }
-    assert!(bits_ok, "C01:and-table:row_i==(a^lambda_x)(b^lambda_y)^lambda_gamma");
-    assert!(macs_ok, "C10:and-table:row-shares-carry-valid-MACs(incl. row-3 key correction)");
-    assert!(labels_ok, "C01:and-table:row-label^evaluator-MAC==label_gamma_0^value*delta");
+    pa!(prop_own, 1, bits_ok, "C01:and-table:row_i==(a^lambda_x)(b^lambda_y)^lambda_gamma");
+    pa!(prop_own, 10, macs_ok, "C10:and-table:row-shares-carry-valid-MACs(incl. row-3 key correction)");
+    pa!(prop_own, 1, labels_ok, "C01:and-table:row-label^evaluator-MAC==label_gamma_0^value*delta");
     kani::cover!(lam_x && lam_y && g_rows[3].0, "and_table_nontrivial_reachable");
     std::mem::forget((g_rows, e_rows));
 }
+
+macro_rules! and_gate_table_variant {
+    ($name:ident, $own:expr) => {
+        #[kani::proof]
+        #[kani::unwind(6)]
+        #[kani::stub(std::fmt::format, no_format)]
+        fn $name() {
+            and_gate_table_n2($own);
+        }
+    };
+}
+and_gate_table_variant!(c01_and_gate_table_n2, 1);
+and_gate_table_variant!(c01_and_gate_table_n2__c10, 10);
+
 
 // ------------------------------------------------------------------------------------------
 // C01 multi-batch: the real producer loops with the batch size as a live-in (so that batch
